@@ -36,6 +36,21 @@ theorem cadence (clk : Nat → Nat) (tm : TM) (start : Nat) (r : Request) (hi : 
   rw [runEvent_log clk tm start r hi]
   simp [hk]
 
+/-- **schedule, as a set**: the offsets at which DENMs leave are exactly the multiples of `i` that are `< T`:
+    one at once (offset 0, when `T > 0`), then every `i`, none at or after `T`. -/
+theorem schedule_exact (i T o : Nat) (hi : 0 < i) : o ∈ offsets i T ↔ ∃ k, o = k * i ∧ o < T :=
+  mem_offsets_iff i T o hi
+
+/-- **sleep drift**: if each `sleep(i)` + message construction really takes `i + d k` ms (`d k ≥ 0`), the loop still
+    emits the same number of DENMs (it counts nominal intervals, not elapsed time), no DENM leaves earlier than its
+    nominal offset `k·i`, and with `d = 0` the nominal schedule is met exactly.  (So under real `time.sleep` the
+    ⌈T/i⌉ messages are spread over `T + Σ d k` rather than `T`.) -/
+theorem drift_same_count_never_early (d : Nat → Nat) (i T : Nat) :
+    (loopDrift d T i T 0 0 0).length = (offsets i T).length ∧
+    (∀ p ∈ List.zip (offsets i T) (loopDrift d T i T 0 0 0), p.1 ≤ p.2) ∧
+    loopDrift (fun _ => 0) T i T 0 0 0 = offsets i T :=
+  ⟨loopDrift_length d T i T 0 0 0, loopDrift_ge d T i T 0 0 0 (Nat.le_refl 0), loopDrift_zero T i T 0 0⟩
+
 /-- **stable identity**: all DENMs of one event carry the same action id and the station's id
     (holds for every interval, also the degenerate ones). -/
 theorem same_identity_within_event (clk : Nat → Nat) (tm : TM) (start : Nat) (r : Request) :
